@@ -8,7 +8,7 @@ real Task objects after the run, so calc_dep results count too).  Real multiproc
 and judged by the oracle only.
 """
 import itertools, os, sys, tempfile, time
-import common, runlib
+import common, runlib, delayed_cli
 from common import Outcome
 
 
@@ -149,7 +149,8 @@ def run(ctx):
     part_edges(ctx, out, cases)
     part_random(ctx, out, cases)
     part_real_processes(ctx, out)
-    out.evaluations = len(cases) + out.extra.get('real_multiprocessing_runs_oracle_only', 0)
+    delayed_cli.delayed_cli_part(ctx, out, 'C01')
+    out.evaluations = len(cases) + out.extra.get('real_multiprocessing_runs_oracle_only', 0) + out.extra.get('delayed_cli_runs', 0)
     bad = common.compare_with_model(ctx, runlib.PRE, cases)
     out.traces_validated = len(cases)
     for i, m in bad:
